@@ -96,6 +96,22 @@ static void dump(Scene &sc, int tx, bool processed)
         std::sort(us.begin(), us.end());
         for (size_t k = 0; k < us.size(); ++k) printf(" %d", us[k]);
         printf("\n");
+        // directions (ConnDirFlags convention: Up = smaller y) of the ORTHOGONAL visibility edges incident to the pin's vertex
+        if (sc.orth)
+        {
+            unsigned mask = 0; int n = 0;
+            EdgeInfList &ol = p->m_vertex->orthogVisList;
+            for (EdgeInfList::const_iterator e = ol.begin(); e != ol.end(); ++e)
+            {
+                Point o = (*e)->otherVert(p->m_vertex)->point, a = p->m_vertex->point;
+                if (o.x == a.x && o.y == a.y) continue;
+                ++n;
+                if (o.y == a.y) mask |= (o.x > a.x) ? ConnDirRight : ConnDirLeft;
+                else if (o.x == a.x) mask |= (o.y > a.y) ? ConnDirDown : ConnDirUp;
+                else mask |= 16;
+            }
+            printf("PEDGE %zu %u %d\n", i, mask, n);
+        }
     }
     for (size_t j = 0; j < sc.juncs.size(); ++j)
     {
